@@ -23,7 +23,7 @@ constexpr int kNumRegex = 4;
 extern const char *const kCatRuleMenu[];
 constexpr int kNumCatRules = 5;
 extern const char *const kPatternMenu[];
-constexpr int kNumPatterns = 6;
+constexpr int kNumPatterns = 7;
 extern const char *const kFiles[];
 constexpr int kNumFiles = 4; // index 0 = null pointer
 extern const char *const kFunctions[];
